@@ -81,6 +81,7 @@ Fails(e) == CASE e.ev = "enc" -> EncFails(e)
               [] e.ev = "dec" -> DecFails(e)
               [] e.ev = "stream" -> StreamFails(e)
               [] e.ev = "lookup" -> LookupFails(e)
+              [] e.ev = "hang" -> <<e.prop \o ".hang">>    \* a call that never returned (recorded by the watchdog of the harness)
               [] OTHER -> <<"unknown-event">>
 
 Init == l = 1 /\ nfail = 0
